@@ -4,7 +4,9 @@
              f : machine floating point: every operation carried out in binary64 and rounded to the C type it is
                  performed at (F32 -> round to binary32; exact for + - * / sqrt by the double-rounding theorem)
              d : every operation in binary64 without rounding to binary32 (higher-precision reading of float code)
-     flavour f : the float instantiations (QuaternionT<float>), d : the double ones (QuaternionT<double>)
+     flavour f : the float instantiations (QuaternionT<float>), d : the double ones (QuaternionT<double>),
+             D : the float-instantiation text on unrounded inputs (with interp d = the same formulas in binary64:
+                 reference for LinearSpace<vec2d/vec3d> and their affine spaces)
    Output layout = harness/C06/harness.cpp. *)
 
 let r32 (x : float) : float = Int32.float_of_bits (Int32.bits_of_float x)
